@@ -265,6 +265,15 @@ def check(chk):
     # ------------------------------------------------------------- FRESH-0
     _fresh_queue(chk, f_peq)
     _resume_before_stacking(chk, f_peq)
+    # a coroutine handler of a queue event holds the event while its task runs: whatever way the task ends (result, exception passed on,
+    # cancellation) the hold is released - or the handlers behind it never get the event and the completion callback never runs
+    adh = chk.repo.func(EV, EM + "._async_handler_done")
+    chk.analysed(adh)
+    acfg = adh.cfg()
+    clr_ = [n.id for n, c in acfg.calls_named("clear") if src(c.func.value) == "queue"]
+    w_ = acfg.path_avoiding(acfg.entry.id, [acfg.exit.id], clr_, ignore_exc=False) if clr_ else [acfg.entry.id]
+    chk.ob("DOM-3", "the done-callback of a coroutine handler releases the queue event on every returning path (cancellation included)", w_ is None, adh.where(),
+           construct=adh.ident, text="coroutine handler hold released", path=acfg.fmt_path(w_, adh) if w_ and len(w_) > 1 else None, nontrivial=True)
 
     # ------------------------------------------------------------- FWD-1
     _forwarding(chk, repo, em)
@@ -1082,6 +1091,7 @@ def battery():
         M("condition on posted kwargs only", E, "not handler.condition.evaluate(merged_kwargs)", "not handler.condition.evaluate(kwargs)", "DOM-2", nth=1),
         M("condition inverted", E, "if handler.condition is not None and not handler.condition.evaluate(merged_kwargs):", "if handler.condition is not None and handler.condition.evaluate(merged_kwargs):", "DOM-2", nth=0),
         M("condition dropped in sequential", E, "            if handler.condition is not None and not handler.condition.evaluate(merged_kwargs):\n                continue\n\n            # log if debug is enabled and this event is not the timer tick", "            # log if debug is enabled and this event is not the timer tick", "DOM-2"),
+        M("cancelled coroutine handler keeps its hold on the queue event", E, "        except asyncio.CancelledError:\n            pass\n        queue.clear()", "        except asyncio.CancelledError:\n            return\n        queue.clear()", "DOM-3"),
         M("resume only when nothing was posted", E, "                    if not next_queue and inner_queue:\n                        next_queue = inner_queue.popleft()\n\n                    if event.type", "                    if event.type", "RESUME-1",
           also=[(E, "                        self.event_queue = deque()\n\n            # when all", "                        self.event_queue = deque()\n                    elif not next_queue and inner_queue:\n                        next_queue = inner_queue.popleft()\n\n            # when all")]),
         M("twin: stack only a non-empty batch, resume afterwards", E, "                    if not next_queue and inner_queue:\n                        next_queue = inner_queue.popleft()\n\n                    if event.type", "                    if event.type", None,
